@@ -6,7 +6,8 @@ import Drivers.Common
 
   resp <op>|<op>|…      ops: status c · header k v · cookie kv · write b · json b ·
                              html b c|- · redirect u c · nocontent c · writeheader c
-    → status=<n> commits=<n> hdr=<k>:<v>,<v>;… body=<b>
+    → status=<n> commits=<n> hdr=<k>:<v>,<v>;… body=<b>      (recorder: every write kept)
+  conn <ops>            same, over a real connection (body only if the committed status allows one)
   spec <ops>            same, evaluated by the reference spec
   mw <prio>:<id>:<calls>,…    → space separated trace
 -/
@@ -50,6 +51,10 @@ def handle (line : String) : String :=
   | ["resp", ops] =>
       match parseOps ops with
       | some ops => showClient (Model.Resp.run ops).client
+      | none => "bad-op"
+  | ["conn", ops] =>
+      match parseOps ops with
+      | some ops => showClient (Model.Resp.runConn ops).client
       | none => "bad-op"
   | ["spec", ops] =>
       match parseOps ops with
